@@ -96,11 +96,7 @@ func c02Run(n int) {
 	}
 	verifAssert("path-starts-at-begin", path[0] == blocks[begin])
 	verifAssert("path-ends-at-end", path[len(path)-1] == blocks[end])
-	// the search reports the end block twice; the block path proper is everything but the trailing duplicate
 	real := path
-	if len(path) >= 2 && path[len(path)-1] == path[len(path)-2] {
-		real = path[:len(path)-1]
-	}
 	verifAssert("path-has-at-least-one-step", len(real) >= 2)
 	for i := 0; i+1 < len(real); i++ {
 		isEdge := false
